@@ -187,14 +187,14 @@ func (w *Worker) Inner(budget int, body func(in *Explorer)) {
 		in := NewReplay(w.replay.Inner, w.replay.InnerBudget)
 		in.Begin()
 		w.curInner = in
-		body(in)
+		w.guardedBody(in, body)
 		w.curInner = nil
 		return
 	}
 	in := NewExplorer(budget)
 	w.curInner = in
 	for in.Begin() {
-		body(in)
+		w.guardedBody(in, body)
 		w.progress.Add(1)
 	}
 	w.Rep.States += in.Nodes
@@ -376,4 +376,31 @@ func sameInts(a, b []int) bool {
 		}
 	}
 	return true
+}
+
+// guardedBody runs one inner case. A panic that escapes the property's own guards happens
+// while the harness inspects what the code under test returned (e.g. a big.Int whose
+// internals were corrupted through aliasing): it is reported as a violation of the property
+// with the panic as detail, never as a silent worker death.
+func (w *Worker) guardedBody(in *Explorer, body func(in *Explorer)) {
+	defer func() {
+		if r := recover(); r != nil {
+			msg := fmt.Sprint(r)
+			if strings.HasPrefix(msg, "mc: ") {
+				panic(r) // explorer divergence: a harness bug, must stay loud
+			}
+			st := string(debug.Stack())
+			w.Violation(w.Prop+".malformed-result", "inspecting the result of the code under test panicked (malformed / corrupted value returned): "+msg,
+				1000, map[string]any{"panic": msg, "stack": firstLines(st, 30)})
+		}
+	}()
+	body(in)
+}
+
+func firstLines(s string, n int) string {
+	ls := strings.Split(s, "\n")
+	if len(ls) > n {
+		ls = ls[:n]
+	}
+	return strings.Join(ls, "\n")
 }
